@@ -151,7 +151,10 @@ def run(ctx):
         caps = []
         for outer in (fac, deco):
             caps.extend((outer, x) for x in _cm9.one_shot_captures(outer.node, cl.node))
-        cfz.instance('%s decorator: the closure reads no lazily consumed iterator of its factory' % kind, cl.qualname, not caps)
+        for outer in (fac, deco):
+            for n_, nm_, what_ in _cm9.closure_state_writes(outer.node, cl.node):
+                caps.append((outer, (n_, nm_, 'written by every call: ' + what_)))
+        cfz.instance('%s decorator: the closure reads no lazily consumed iterator of its factory and keeps no state in it' % kind, cl.qualname, not caps)
         cfz.evaluations += 1
         for outer, (n, nm, what) in caps[:1]:
             res.add(Finding('C09', 'C09.f', 'R-PROV', outer.file, outer.qualname, n.lineno, '%s = %s' % (nm, what),
